@@ -426,11 +426,19 @@ func (c *Crew) toMachines(ctx context.Context, msg interface{}) ([]string, error
 		case []string:
 			return vv, nil
 		case []interface{}:
-			mids := make([]string, len(vv))
-			for i, x := range vv {
+			// Each addressed machine sees the message once, even
+			// if its id is listed more than once.  (A second walk
+			// would also replace the first one's emitted messages
+			// in RunMachines' result.)
+			mids := make([]string, 0, len(vv))
+			seen := make(map[string]bool, len(vv))
+			for _, x := range vv {
 				switch vv := x.(type) {
 				case string:
-					mids[i] = vv
+					if !seen[vv] {
+						seen[vv] = true
+						mids = append(mids, vv)
+					}
 				}
 			}
 			return mids, nil
